@@ -87,7 +87,7 @@ def check(prog: Program, tier: str) -> Result:
             raise AnalysisError(f"{q}: construction of the equivalent pipe / tube not found")
         pa, ta = pipes[0].data, tubes[0].data
         ri, ro = pa.get("r_in"), pa.get("r_out")
-        n = f.env.get("n")
+        n = (vf / (PI * ri ** 2)) if isinstance(ri, Rat) and not ri.is_zero() else None  # number of tubes the fluid volume is spread over
         okn = isinstance(n, Rat) and n.equals(Rat.const(2))
         res.ob("R15.1", f"the equivalent exchanger has n = 2 tubes (one U) (got {vkey(n)})", okn, prog.loc(fi, fi.node))
         if not okn:
@@ -121,15 +121,21 @@ def check(prog: Program, tier: str) -> Result:
         if not ok:
             res.violation("R15.3", "return-eq", prog.loc(fi, f.exit[2]), q, "equivalent_single_u_tube does not return the equivalent tube")
         solves = [e for e in f.events if e.kind == "SOLVE"]
-        ok = len(solves) == 1 and len(solves[0].data[2].args) >= 2 and ast.unparse(solves[0].data[2].args[1]) == "objective_pipe_conductivity"
-        res.ob("R15.3", "the pipe conductivity is solved with objective_pipe_conductivity", ok, prog.loc(fi, solves[0].node) if solves else prog.loc(fi, fi.node))
+        obj_name = ast.unparse(solves[0].data[2].args[1]) if len(solves) == 1 and len(solves[0].data[2].args) >= 2 else None
+        ok = obj_name is not None and f"{q}.<locals>.{obj_name}" in prog.funcs
+        res.ob("R15.3", f"the pipe conductivity is solved with a local objective ({obj_name})", ok, prog.loc(fi, solves[0].node) if solves else prog.loc(fi, fi.node))
         if not ok:
             res.violation("R15.3", "no-conductivity-solve", prog.loc(fi, fi.node), q, "the pipe conductivity of the equivalent tube is no longer solved for")
     # objective closures
-    oq = f"{q}.<locals>.objective_pipe_conductivity"
+    oq = f"{q}.<locals>.{obj_name}"
     ofi = prog.funcs.get(oq)
     if ofi is None:
         raise AnalysisError(f"{oq} not found")
+    # the closure's view of the equivalent tube: the local of the outer function bound to SingleUTube(...)
+    TUBE = next((s_.targets[0].id for s_ in ast.walk(fi.node) if isinstance(s_, ast.Assign) and len(s_.targets) == 1 and isinstance(s_.targets[0], ast.Name)
+                 and isinstance(s_.value, ast.Call) and attr_chain(s_.value.func) == "SingleUTube"), None)
+    if TUBE is None:
+        raise AnalysisError(f"{q}: the local holding the equivalent SingleUTube was not found")
 
     class HO(Hooks):
         def on_call(self, node, fname, args, kwargs, st, eng):
@@ -147,14 +153,15 @@ def check(prog: Program, tier: str) -> Result:
     st = State()
     for p in ofi.params():
         st.env[p] = Rat.atom(p)
-    for nm in ("resist_conv", "resist_pipe", "eq_single_u_tube"):
+    for nm in ("resist_conv", "resist_pipe"):
         st.env[nm] = Rat.atom(nm)
+    st.env[TUBE] = Rat.atom("eq_single_u_tube")
     f = [x for x in eng.run_function(st) if x.exit and x.exit[0] == "return"][0]
     rv = f.exit[1]
     want = Rat.atom("eq_single_u_tube.R_fp") - (Rat.atom("resist_conv") + Rat.atom("resist_pipe"))
     sets = [e.data for e in f.events if e.kind == "SET"]
     rec = [e for e in f.events if e.kind == "RECALC"]
-    ok = isinstance(rv, Rat) and rv.equals(want) and any(k == "eq_single_u_tube.pipe.k" and v == Rat.atom(ofi.params()[0]) for k, v in sets) and bool(rec)
+    ok = isinstance(rv, Rat) and rv.equals(want) and any(k in ("eq_single_u_tube.pipe.k", f"{TUBE}.pipe.k") and v == Rat.atom(ofi.params()[0]) for k, v in sets) and bool(rec)
     res.ob("R15.3", "conductivity objective: set pipe.k, recompute, return R_fp(equivalent) - (R_conv + R_pipe)", ok, prog.loc(ofi, ofi.node))
     if not ok:
         res.violation("R15.3", f"objective-k|{vkey(rv)[:80]}", prog.loc(ofi, ofi.node), oq, f"the conductivity objective returns {vkey(rv)[:120]} (sets {[(k, vkey(v)) for k, v in sets]}); expected R_fp of the re-evaluated equivalent tube minus (resist_conv + resist_pipe)")
